@@ -1,9 +1,10 @@
 /- line-protocol handlers for the C16 models (Model/Layout.lean) -/
 import FontVerif.Model.Layout
 import FontVerif.Model.LayoutLookup
+import FontVerif.Model.LayoutDevice
 import Std.Data.HashMap
 namespace FontVerif.Drv.C16
-open FontVerif FontVerif.Layout
+open FontVerif FontVerif.Layout FontVerif.HandLayout
 
 /-- split an argument list at `|` tokens -/
 def splitBar (args : List String) : List (List String) :=
@@ -277,6 +278,16 @@ def handle (cmd : String) (args : List String) : Option String :=
         | none => "none"
         | some pts => joinNats pts)
     | _, _ => none
+  | "device.build", some [[start], ds] =>
+    -- `Device::new(start, start + n - 1, deltas)` (deltas sent as `d + 128`): the header, the packed
+    -- words and what `Device::iter` decodes from them
+    if ds.isEmpty || ds.any (· > 255) then none else
+    let vs : List Int := ds.map (fun (d : Nat) => Int.ofNat d - 128)
+    let dev := deviceNew start (start + vs.length - 1) vs
+    some (joinNats [dev.start, dev.end_, dev.fmt] ++ " | " ++ joinNats dev.words ++ " | " ++
+      (match devIter dev with
+       | .val out => joinNats (out.map (fun x => (x + 128).toNat))
+       | .trap => "trap"))
   | "mb.split", some (mctbl :: [classCount] :: pts :: marks :: rows) =>
     -- `split_off_mark_pos` for every range of the given split points; mark record `i` = (class,
     -- anchor id), base row = anchor ids per class with 0 = null
